@@ -79,6 +79,26 @@ WHY = {
  "lib_set-182-5-42": "equivalent: dead base case of the v1 set patch",
  "v2_jd_main-42-18-25": "GAP, closed: jd called with no argument at all crashed with a stack trace (os.Args[1]); C13's cli leg had no malformed argument lists; added (bare call, three files, unknown flag, ...: status 2 and no stack trace) (re-judged: reported by C13)",
  "v2_jd_main-254-13-13": "equivalent: the flag is ignored on the error path",
+ "v2_path-157-5-11": "equivalent: drop() is not called on an empty path",
+ "lib_list-91-4-12": "equivalent: for lists of equal length both branches emit the same hunks",
+ "lib_diff_read-38-14-3": "equivalent for the properties: a v1 rendering has no empty line except the last",
+ "main-197-7-31": "outside the properties: -precision together with -set is an unsupported flag combination (C14 quantifies over the supported ones); the mutant runs it instead of refusing",
+ "lib_multiset-137-5-11": "equivalent: a loop of zero iterations",
+ "v2_list-253-6-17": "equivalent: once a sub-diff has been appended the first hunk already has its after-context",
+ "lib_path-37-18-24": "equivalent: dead branch of prependMetadataMerge",
+ "v2_diff_read-222-10-23": "equivalent for the properties: only the line number in an error message changes",
+ "v2_set-209-6-7": "outside the properties: differs only for a path that continues behind {} or an index inside a set, which jd never emits and rejects on the clean tree",
+ "main-331-13-13": "equivalent: the flag is ignored on the error path",
+ "v2_list-336-12-10": "equivalent: dead arm of sameContainerType (under SET arrays never reach jsonList.diff)",
+ "v2_bool-5-12-26": "equivalent: a compile-time interface assertion",
+ "v2_jd_main-438-1-8": "outside the properties: runAsGitHubAction",
+ "lib_list-195-5-12": "outside the properties: only changes (to a panic) what the v1 patch does with a hunk whose path continues behind the end of an array; C17/C18 quantify over jd's own diffs",
+ "main-423-13-14": "equivalent: the flag is ignored on the error path",
+ "v2_patch_common-47-17-4": "reported by C08 (the repair babea92 undone; C08 was not among the six properties the sweep ran for v2/patch_common.go)",
+ "lib_diff_write-34-0-7": "outside the properties: colour rendering of the v1 library (C02's colour clause is about v2, C17 about plain Render)",
+ "v2_multiset-215-5-17": "equivalent: a loop of zero iterations",
+ "v2_diff_read-311-7-15": "equivalent: a hunk read with an after-context test has a non-empty path",
+ "lib_diff_read-273-21-16": "equivalent: the path handed to an empty-object leaf is a fresh slice already",
  "v2_multiset-172-5-20": "equivalent: dead base case of jsonMultiset.patch",
  "lib_multiset-163-7-24": "equivalent: dead base case of the v1 multiset patch",
  "lib_multiset-163-5-42": "equivalent: dead base case of the v1 multiset patch",
